@@ -114,6 +114,9 @@ def frame_cases(prop, seed=0):
     if prop == "C09":
         out.append(_g("toqito.state_opt", "optimal_clone", [dict(kind="kets", d=2, n=3, seed=s), dict(kind="probs", n=3, seed=s)], "kets", tol=5e-4))
         out.append(_g("toqito.state_opt", "optimal_clone", [dict(kind="kets", d=2, n=2, seed=s + 1), dict(kind="probs", n=2, seed=s)], "kets-primal", tol=5e-4, kwargs=dict(strategy=dict(kind="const", v=True))))
+        # an extended nonlocal game whose referee operators are already complex128 (no dtype conversion can hide a missing copy)
+        enlg = [dict(kind="array", v=[[0.5, 0.0], [0.0, 0.5]]), dict(kind="enlg_pred", complex=True)]
+        out.append(_o("toqito.nonlocal_games.extended_nonlocal_game", "ExtendedNonlocalGame", enlg, [["unentangled_value", {}], ["unentangled_value", {}], ["nonsignaling_value", {}], ["unentangled_value", {}]], "complex-pred", tol=1e-4))
         q = dict(kind="density", d=4, seed=s, rank=2)
         out.append(_o("toqito.nonlocal_games.quantum_hedging", "QuantumHedging", [q, dict(kind="const", v=1)], [["max_prob_outcome_a_primal", {}], ["min_prob_outcome_a_dual", {}], ["max_prob_outcome_a_dual", {}], ["min_prob_outcome_a_primal", {}], ["max_prob_outcome_a_primal", {}]], "n=1"))
     if prop in ("C10", "C11"):
